@@ -76,6 +76,8 @@ func ScenarioByName(name string) *Scenario {
 		sc = Slow(arg(1), arg(2), arg(3), arg(4))
 	case "dups":
 		sc = Dups(arg(1), arg(2))
+	case "burst":
+		sc = Burst(arg(1), arg(2), arg(3), arg(4))
 	case "rejoin":
 		sc = Rejoin(arg(1), arg(2), arg(3), arg(4))
 	case "refused":
